@@ -5,7 +5,7 @@
 cd "$(dirname "$0")/.."
 rev=""; if [ "$1" = "-R" ]; then rev="-R"; shift; fi
 patch=$1; tier=$2; shift 2
-export GOFLAGS=-mod=mod GOPROXY=off GOSUMDB=off GOTOOLCHAIN=local
+export GOFLAGS=-mod=mod GOPROXY=off GOSUMDB=off GOTOOLCHAIN=local VERIF_EVIDENCE_DIR=/tmp/verif-mutant-evidence
 if [ -n "$(git -C /repo status --porcelain)" ]; then echo "/repo is dirty, refusing"; exit 2; fi
 git -C /repo apply $rev "$patch" || { echo "PATCH DOES NOT APPLY: $patch"; exit 2; }
 trap 'git -C /repo checkout -- . ; git -C /repo clean -fdq -- . >/dev/null 2>&1' EXIT
